@@ -517,7 +517,7 @@ class C19(Check):
             "suppressed, suppress flag and the class relation at every node. Non-trivial: >=2 nodes or an "
             "un-encodable argument; distinct = distinct (class, arg kinds, links) graphs.")
     floors = {"counters.round_trips": 8000, "counters.links_checked": 8000, "counters.cyclic_graphs": 200}
-    quick_cases = 5000
+    quick_cases = 8000
     thorough_cases = 300000
     thorough_time = 400.0
     assumptions = [
@@ -909,7 +909,7 @@ class C20(Check):
             "non-exception object or is nested; distinct = distinct (module, name, nesting, args shape).")
     floors = {"counters.call_events": 20000, "counters.security_errors": 2000, "counters.loaded": 1000,
               "counters.nested_cases": 1000}
-    quick_cases = 6000
+    quick_cases = 8000
     thorough_cases = 200000
     thorough_time = 400.0
     assumptions = [
